@@ -52,6 +52,9 @@ type family struct {
 	compat  func(a, b Dist) bool
 	anyLen  bool
 	only    map[string]bool
+	// storage of the evaluation point (storage.go): coordinates that are set to zero together
+	// (symmetric matrix arguments); nil = every coordinate on its own
+	zeroGroups func(d Dist, n int) [][]int
 }
 
 var fams = map[string]*family{}
